@@ -25,12 +25,12 @@ Proof.
   rewrite A, R1, R2, R3, R4, R5, R6. reflexivity.
 Qed.
 
-Theorem c12_fails_partial : forall c h t,
-  cfg_ok c -> In t (trace c (init c) h) -> known_c12_expired t = false -> c12_fails c t = [].
+Theorem c12_fails_nil : forall c h t,
+  cfg_ok c -> In t (trace c (init c) h) -> c12_fails c t = [].
 Proof.
-  intros c h t Hc Hin Hk. unfold c12_fails.
+  intros c h t Hc Hin. unfold c12_fails.
   destruct (op_msg (t_op t)) as [m|] eqn:Hm; auto.
-  pose proof (no_ack_when_partial c h t m Hin Hm Hk) as NA. rewrite NA. rewrite andb_false_r.
+  pose proof (no_ack_when_all c h t m Hin Hm) as NA. rewrite NA. rewrite andb_false_r.
   destruct (t_reply t) as [r|] eqn:Hr; auto. rewrite app_nil_r.
   destruct (is_lease_reply r) eqn:L; auto.
   pose proof (subnet_all c h t m r Hc Hin Hm Hr) as S.
